@@ -330,6 +330,11 @@ func genConflictRich(r *rng.R) *rawWS {
 	w := &rawWS{}
 	n := r.Range(5, 10)
 	pool := []string{"a.out", "b.out", "dir::d", "d/f.out", "dir::d/in", "d/in/g.out", "dir::e", "e/h.out", "c.out", "dir::e/"}
+	if r.Chance(1, 2) {
+		// directories whose names sort between a directory and what lies inside it ('-', '.',
+		// '+', ' ' are smaller than '/'): siblings, not overlaps - next to real nestings
+		pool = []string{"dir::d", "dir::d/in", "dir::d-tmp", "dir::d.bak", "dir::d+1", "d/in/g.out", "dir::d/in-2", "dir::d/in/deep", "c.out", "dir::d x", "d.out", "dir::d/in.old"}
+	}
 	for i := 0; i < n; i++ {
 		t := rawTarget{Pkg: "p", Name: fmt.Sprintf("n%d", i), File: "BUILD.json"}
 		for j := 0; j < i; j++ {
